@@ -52,7 +52,7 @@ def showSt : TreeSt → String
       | some p => showNats "." p.2
       | none => "?")
     s!"full h={h} F={F} chain=[{"|".intercalate ch}] root={showTree h root}"
-  | .leavesOnly ls => s!"leaves=[{";".intercalate (ls.map showLeafOnly)}]"
+  | .leavesOnly _ ls => s!"leaves=[{";".intercalate (ls.map showLeafOnly)}]"
 
 def showCfg (c : Cfg) : String :=
   s!"crit={c.merge.crit.name} tol={showOptRat c.merge.tolerance?} thr={showRat c.thr} bf={c.bf}"
